@@ -313,6 +313,15 @@ func (e *agentEngine) Setup(r *Run) {
 	for i := 0; i < 8; i++ {
 		e.times = append(e.times, base.Add(time.Duration(i)*time.Second))
 	}
+	if r.Pct(20, "zero-time") {
+		e.times[0] = time.Time{} // the zero time is just the earliest instant
+	}
+	if r.Pct(20, "close-times") {
+		// instants one nanosecond apart: the comparison must be exact
+		for i := 1; i < len(e.times); i++ {
+			e.times[i] = base.Add(time.Duration(i))
+		}
+	}
 	for i := 0; i < aMaxIDs; i++ {
 		var id [stun.TransactionIDSize]byte
 		// ids differ in a single bit of the last byte / first byte alternately
